@@ -36,7 +36,8 @@ P = {
          "try_get_len/has_more are interleaved densely with pulls and skips; quiescent answers must equal the model, answers ordered in real time must not increase, and after an answer of 0/No no later pull may deliver.", "8/C11"),
  "C12": (True, "exploration", "deterministic simulation: closure-invocation ledger for for_each/enumerate_for_each/fold under seeded schedules",
          "1-4 threads call for_each/enumerate_for_each/fold with mixed chunk sizes (1 and >1), optionally racing direct pulls; closure arguments over all threads must cover the source exactly once with correct indices, the iterator must be exhausted when a call returns, and fold results must equal the fold of what each call visited.", "8/C12"),
- "C13": (False, "exploration", "", "", "8/C13", "check under construction (twin-run differential of adaptor vs. underlying iterator)"),
+ "C13": (True, "exploration", "deterministic simulation, twin runs: the adaptor and its underlying reference-yielding iterator execute the same workload under the same call-granular seeded schedule; transcripts compared operation by operation",
+         "Each run executes a generated workload (all pulling methods, queries, skip, stop, partial chunks, into_seq_iter, 1-4 threads) once on X.cloned()/X.copied() and once on an identical X, with preemption only between API calls so that both twins see the same total order of calls; every result (indices, element identities, chunk boundaries, announced lengths, ends, lengths, skip behaviour, remainder) must be identical, the number of clones must equal the number of elements handed out, and the source must be untouched. Fine-grained interleavings of the adaptors themselves are covered because the adaptor kinds are source kinds of C01-C12.", "8/C13"),
  "C14": (False, "", "", "", "8/C14", "compile-time accept/reject verdicts on client programs have no schedule, fault, time or history dimension; nothing for a simulator to execute (see DESIGN.md 8/C14)"),
  "C15": (True, "exploration", "deterministic simulation with a counting global allocator: scoped allocation ledger must be empty after every run",
          "The simulator binary installs a counting #[global_allocator]; every block allocated while building the consumed source or inside a call into the crate is entered in a ledger, every deallocation removes its block. After a run (consuming kinds, element payloads of 0/8/24/4096 heap bytes, all histories incl. partial chunks, skip, stop, into_seq_iter(take m), concurrent use) has dropped everything, the ledger must be empty; since consecutive runs share the process, an empty ledger after each run also means no growth under repetition.", "8/C15"),
@@ -46,7 +47,8 @@ P = {
          "Determinism makes two binaries comparable: the simulator (and with it the crate, a path dependency) is built once without and once with debug assertions + overflow checks; both execute the same run indices and the parent compares per-run event-log hash and transcript hash (results, indices, lens, ledger, allocator summary, panic messages); a build that aborts is a violation.", "8/C17"),
  "C18": (True, "fault_enumeration", "deterministic simulation with panic injection at every crash point k (wrapped next / clone / closure) under seeded schedules",
          "For len <= 6 the panic is injected at the k-th call of the wrapped iterator's next, of Clone, or of the user closure, for every k in 0..=len+1 (drawn uniformly, so every crash point of every site is visited thousands of times), with 2-3 threads and sampled schedules. Others must return (no deadlock verdict), no duplicate delivery, drop ledger exact.", "8/C18"),
- "C19": (False, "exploration", "", "", "8/C19", "check under construction (several iterators over one collection)"),
+ "C19": (True, "exploration", "deterministic simulation with several iterators (original, clones taken at arbitrary points, fresh ones) over one borrowed collection; per-iterator cursor model + address identity",
+         "2-3 threads operate on the original iterator and, from arbitrary points of their operation lists, on clones of it (taken while other threads keep pulling from the original) or on fresh iterators over the same slice/Vec/array/range. Each iterator's own history must be linearizable against a cursor of its own (a clone starting at a position the original had between the clone call's invoke and return), delivered references must point at the collection's elements, and the collection must be unmodified and undropped afterwards.", "8/C19"),
 }
 
 def main():
